@@ -2,6 +2,7 @@ package main
 
 import (
 	"bytes"
+	"sync"
 
 	"encoding/json"
 	"fmt"
@@ -38,6 +39,82 @@ type closeDesc struct {
 	Grants  []int       `json:"grants,omitempty"`
 	Txn     *txnDesc    `json:"txn,omitempty"`   // second kind of case: transactional calls around a rejected commit
 	Maint   *maintDesc  `json:"maint,omitempty"` // third kind: flush, a compaction with many output tables, Close
+	Conc    *concDesc   `json:"conc,omitempty"`  // fourth kind: concurrent writers of large inline values, Close
+}
+
+type concDesc struct {
+	Writers  int `json:"writers"`
+	Ops      int `json:"ops"`
+	ValueKiB int `json:"value_kib"`
+	WaitMs   int `json:"wait_ms"`
+}
+
+// execConc: Writers goroutines write Ops values of ValueKiB KiB each (inline: ValueThreshold 1 MiB) while
+// the commit worker coalesces them into batches with a byte budget of 64 KiB; every Set must return, every
+// acknowledged value must be readable, Close must return.
+func execConc(c *corr.Ctx, d concDesc) corr.Case {
+	dir := scratchDir(c)
+	defer os.RemoveAll(dir)
+	opt := NoKV.NewDefaultOptions()
+	opt.WorkDir = dir
+	opt.MemTableSize = 16 << 20
+	opt.ValueThreshold = 1 << 20
+	opt.MaxBatchSize = 16 << 20
+	opt.WriteBatchMaxSize = 64 << 10
+	opt.WriteBatchWait = time.Duration(d.WaitMs) * time.Millisecond
+	opt.HotRingEnabled = false
+	opt.WriteHotKeyLimit = 0
+	opt.EnableWALWatchdog = false
+	opt.ValueLogGCInterval = 0
+	db := NoKV.Open(opt)
+	var returned, acked int64
+	ok := make([][]bool, d.Writers)
+	val := func(w, i int) []byte {
+		v := bytes.Repeat([]byte{byte('a' + w)}, d.ValueKiB<<10)
+		copy(v, fmt.Sprintf("c%d.%d.", w, i))
+		return v
+	}
+	var wg sync.WaitGroup
+	for w := 0; w < d.Writers; w++ {
+		w := w
+		ok[w] = make([]bool, d.Ops)
+		wg.Add(1)
+		go func() {
+			defer wg.Done()
+			for i := 0; i < d.Ops; i++ {
+				err := db.Set([]byte(fmt.Sprintf("conc-%d-%d", w, i)), val(w, i))
+				ok[w][i] = err == nil
+				if err == nil {
+					atomic.AddInt64(&acked, 1)
+				}
+				atomic.AddInt64(&returned, 1)
+			}
+		}()
+	}
+	all := watchdogFor(10*time.Second, wg.Wait)
+	nret := atomic.LoadInt64(&returned)
+	readsOK := true
+	closeOK := false
+	if all {
+		for w := 0; w < d.Writers; w++ {
+			for i := 0; i < d.Ops; i++ {
+				if !ok[w][i] {
+					continue
+				}
+				e, err := db.Get([]byte(fmt.Sprintf("conc-%d-%d", w, i)))
+				if err != nil || !bytes.Equal(e.Value, val(w, i)) {
+					readsOK = false
+				}
+			}
+		}
+		closeOK = watchdogFor(30*time.Second, func() { _ = db.Close() })
+	} else {
+		c.Count("writes_hung")
+		hungCases++
+	}
+	c.CountN("concurrent_writes_acked", int(atomic.LoadInt64(&acked)))
+	return corr.Case{Coq: fmt.Sprintf("Wr %d %d %d %s %s", d.Writers, d.Ops, nret, corr.Bool(readsOK), corr.Bool(closeOK)),
+		Nontrivial: true, Desc: closeDesc{Conc: &d}}
 }
 
 type maintDesc struct {
@@ -401,12 +478,20 @@ func runClose(c *corr.Ctx) error {
 				c.Emit(execMaint(c, *d.Maint))
 				continue
 			}
+			if d.Conc != nil {
+				c.Emit(execConc(c, *d.Conc))
+				continue
+			}
 			d.Words = d.Grants
 			if err := emit(d); err != nil {
 				return err
 			}
 		}
 		return nil
+	}
+	// concurrent writers whose batches hit the commit worker's byte budget; then Close
+	for i, m := 0, c.Scale(6, 60); i < m && hungCases < 2; i++ {
+		c.Emit(execConc(c, concDesc{Writers: 4 + c.Rng.Intn(5), Ops: 1 + c.Rng.Intn(3), ValueKiB: 20 + c.Rng.Intn(40), WaitMs: []int{0, 5, 50}[c.Rng.Intn(3)]}))
 	}
 	// a compaction with more than 3 output tables finishes, and Close finishes afterwards
 	c.Emit(execMaint(c, maintDesc{Keys: 48, ValueKiB: 900}))
